@@ -442,10 +442,11 @@ def _out_hash_stub(h):
     """Exported contract of _compute_out_step_hash: None, or the same hash with a new output digest
     (StepHash.with_out_hashes keeps the input part, proved under C13)."""
     c = cur()
-    _ev("out_rehash")
+    new_out = FileMap.fresh(c.fresh_name("new_out"))
+    _ev("out_rehash", new_out=new_out)
     r = ty.Opt(StepHashRec2).fresh(c.fresh_name("out_hash"))
     c.pc.append(tm.Implies(tm.Not(r.isnone), tm.Eq(S(r.payload.inp_digest), S(h.inp_digest))))
-    return r, FileMap.fresh(c.fresh_name("new_out"))
+    return r, new_out
 
 
 def _classify_stub(self, run, new_hash, new_inp_hashes, unexpected):
@@ -623,6 +624,15 @@ def _skip_finish(c, outcome, args, old):
     writes = [e for e in t if e.kind in ("update_file_hashes", "mark_completed")]
     c.prove("completion_writes_in_one_transaction", _in_one_span(t, writes), kind="post")
     c.prove("not_deferred", done[0].wants_defer is False, kind="post")
+    # C09: a step marked succeeded has all its outputs BUILT.  mark_completed only turns OUTDATED outputs back to BUILT;
+    # an output that an external change sent to PLANNED (its content restored since) becomes BUILT through the hash
+    # update with cause SUCCEEDED -- the hashes found by the output re-hash, stored before the completion
+    outs = [e for e in t if e.kind == "out_rehash"]
+    ups = [e for e in t if e.kind == "update_file_hashes"]
+    ok = (len(ups) == 1 and len(outs) == 1 and ups[0].cause is HashUpdateCause.SUCCEEDED and ups[0].index < done[0].index
+          and ups[0].hashes is outs[0].new_out)
+    c.prove("found_output_hashes_are_stored_with_the_completion", tm.mk_bool(bool(ok)), kind="post",
+            detail=f"{len(ups)} hash update(s), {len(outs)} output re-hash(es)")
 
 
 @contract("stepup/core/executor.py::Executor.try_skip_job", props=["C03", "C04", "C05"])
@@ -631,7 +641,7 @@ class try_skip_job:
                 step_hash=StepHashRec2)
     finish = _skip_finish
     modifies = []
-    partial_props = {"C06": ["a_failed_skip_check_stores_no_hashes"]}
+    partial_props = {"C06": ["a_failed_skip_check_stores_no_hashes"], "C09": ["found_output_hashes_are_stored_with_the_completion"]}
 
 
 # ---------------------------------------------------------------- amended inputs: availability and freshness
